@@ -76,10 +76,50 @@ def one(sid, rnd, length, with_ext=False):
     return s.done()
 
 
+def generations(sid, rnd, n):
+    """the automaton belongs to the runtime of the current generation: after every reset (an invocation that is not
+    answered times out) the new runtime starts in its initial state and its calls are judged against that"""
+    s = Scn(sid, ext=[], timeout_ms=300, opWaitMs=6000)
+    s.meta(family="rtapi", kind="generations", n=n)
+    s.init()
+    s.await_exec(kind="rt")
+    poll = s.poll("rt")
+    for g in range(n):
+        it = s.invoke(size=3, seed=g + 1)
+        s.wait(poll)
+        s.call("rt", "response", id="current", body="gen%d-first" % g)
+        poll = s.poll("rt")
+        s.wait(it)
+        # one misuse per generation, then an invocation that is left unanswered
+        misuse = rnd.choice(["initerror", "response-again", "restorenext", "none"])
+        if misuse == "initerror":
+            s.call("rt", "initerror", body='{"errorMessage":"late"}', errType="Runtime.Late")
+        elif misuse == "response-again":
+            s.call("rt", "response", id="current", body="again")
+        elif misuse == "restorenext":
+            s.call("rt", "restorenext")
+        it = s.invoke(size=3, seed=100 + g)
+        s.wait(poll)
+        m = s.mark()
+        s.wait(it)              # timeout, reset
+        it = s.invoke(size=3, seed=200 + g)
+        s.await_exec(kind="rt", since=m)
+        if rnd.random() < 0.5:
+            s.call("rt", "response", id="current", body="before-first-poll")     # the new runtime has not polled yet
+        poll = s.call("rt", "next", async_=True)
+        s.wait(poll)
+        s.call("rt", "response", id="current", body="gen%d-recovered" % g)
+        poll = s.poll("rt")
+        s.wait(it)
+    return s.done()
+
+
 def scenarios(ctx):
     rnd = random.Random(ctx.seed * 7919 + 12)
     n = 60 if ctx.quick else 600
-    return [one("c12-%03d" % i, rnd, rnd.randrange(6, 22), with_ext=(i % 3 == 2)) for i in range(n)]
+    out = [one("c12-%03d" % i, rnd, rnd.randrange(6, 22), with_ext=(i % 3 == 2)) for i in range(n)]
+    out += [generations("c12-gen%02d" % i, rnd, 2 if ctx.quick else 3) for i in range(3 if ctx.quick else 20)]
+    return out
 
 
 def run(ctx):
